@@ -657,6 +657,27 @@ func showArg(t *Thread, v Value, verb byte) *StrVal {
 			return &StrVal{B: sliceBytes(x)}
 		}
 	}
+	if m, ok := v.(*MapObj); ok && m != nil && (verb == 'v' || verb == 's') {
+		// map[k:v k:v] - entries whose presence is concrete, in insertion order (Go sorts by key; only membership of
+		// the rendered text is meaningful in the model)
+		noteStub("fmt: a map renders as map[k:v ...] in insertion order (Go sorts keys)")
+		out := &StrVal{B: append([]*Term{}, StrConst("map[").B...)}
+		first := true
+		for _, e := range m.E {
+			if e.P != nil && e.P.IsConst() && !e.P.B {
+				continue
+			}
+			if !first {
+				out.B = append(out.B, MkBV(' ', 8))
+			}
+			first = false
+			out.B = append(out.B, showArg(t, e.K, 'v').B...)
+			out.B = append(out.B, MkBV(':', 8))
+			out.B = append(out.B, showArg(t, e.V, 'v').B...)
+		}
+		out.B = append(out.B, MkBV(']', 8))
+		return out
+	}
 	noteStub("fmt: composite value renders as \"?\"")
 	return StrConst("?")
 }
